@@ -66,6 +66,12 @@ FIXED = [
      "`def 1 { a(); } def 0 { b(); }` raised AssertionError (ordering assert outside the try)"),
     ("C10", "fix: undocumented exception for a routine target that is neither an integer nor a constant",
      "`def 0 for performer 1.5 { a(); }` raised TypeError (compile() unwraps exception chains to their first member)"),
+    ("C15", "fix: compile CLI prints jump targets as positions in the list of operations",
+     "`if (debug) { a(); } b(); end;` printed [BranchDebug 1 3, Jump 5, a, b, End]: 5 is the internal offset of b (position 4), the decompile command jumped to End or failed with 'went past EOF' (36590 of 53k programs)"),
+    ("C15", "fix: decompile CLI did not know the names of coroutines",
+     "every JSON document with a COROUTINE routine failed with 'Unknown coroutine for: 0'"),
+    ("C15", "fix: decompile CLI crashed on integer coordinates of position marks",
+     "the documented `\"x\": 10` raised AttributeError: 'int' object has no attribute 'split'"),
     ("C08", "fix: source map file of macros imported by an imported file",
      "main.exps -> lib.exps -> deep/lib2.exps: macro entries and IncludedUsageMap named lib.exps for macros defined in deep/lib2.exps (66 of 574 macro cases)"),
 ]
